@@ -46,6 +46,9 @@ def gen_cases(tier, seed):
             if s["type"] != 2 and s["dtype"] == 0xFF and len(s["data"]) == 0:
                 s["data"] = "41"
             specs.append(s)
+        if src == "cas" and nf >= 2 and k % 4 == 1:
+            # the same program saved twice on one tape (same name, different contents): both are files of the source
+            specs[r.randrange(1, nf)]["name"] = specs[0]["name"]
         chain = r.choice([["dsk"], ["cas"], ["dsk", "cas"], ["cas", "dsk"], ["dsk", "cas", "dsk"], ["cas", "dsk", "cas"], ["bin"], ["both"], ["both"]])
         sel = None
         if r.random() < 0.5 and chain not in (["bin"],):
